@@ -1023,6 +1023,38 @@ class Gen:
         f.probe_calls = [[x % W] for x in (r.sample(xs, 5) if mode != "helper_const" else xs[:1])]
         return f
 
+    def map_probe_function(self, idx):
+        """write then read a HashMap element (plain or nested) at argument keys: the element's slot is checked against
+        keccak256(slot ++ key) of the layout in the final-storage comparison"""
+        r = self.r
+        p = self.prog
+        W = 2 ** 256
+        kt = r.choice([U256, ("int", 128, True), ("int", 8, False), ADDR, BOOL])
+        vt = r.choice([U256, self.int_type(), BOOL])
+        nested = r.random() < 0.4
+        k2 = r.choice([U256, ("int", 8, True)])
+        mt = ("map", kt, ("map", k2, vt)) if nested else ("map", kt, vt)
+        si = len(p.sto)
+        p.sto.append((f"s{si}", mt))
+        a0, a1, a2 = E("var", kt, name="a0", id=0), E("var", vt, name="a1", id=1), E("var", k2, name="a2", id=2)
+        path = [("i", a0)] + ([("i", a2)] if nested else [])
+        rd = E("idx", mt[2], a=E("self", mt, name=f"s{si}", id=si), i=a0.clone())
+        if nested:
+            rd = E("idx", vt, a=rd, i=a2.clone())
+        f = Fun(f"p{idx}", [("a0", kt), ("a1", vt), ("a2", k2)], vt,
+                [S("assign", base=("sto", f"s{si}", si), path=path, e=a1, decl=None), S("return", e=rd)], True)
+        f.probe = kt
+
+        def pick(t):
+            if t == BOOL:
+                return r.choice([0, 1])
+            if t == ADDR:
+                return r.choice([0, 1, int(DEPLOYER, 16), 2 ** 160 - 1])
+            lo, hi = int_bounds(t)
+            return r.choice([0, 1, 2, 3, hi, lo, -1 if lo < 0 else 7]) % W
+        f.probe_calls = [[pick(kt), pick(vt) or 1, pick(k2)] for _ in range(4)]
+        return f
+
     def index_probe_function(self, idx):
         """subscript at the boundaries: index 0, last, length, length+1, huge (and negative for a signed index type) into a
         static array / DynArray that is a parameter or a storage variable (read and write)"""
@@ -1591,11 +1623,13 @@ class Gen:
         f.probe = f.params[0][1]
         return f
 
-    def narrow_probe_function(self, idx):
+    def narrow_probe_function(self, idx, slot=None):
         """range-narrowed arithmetic: operands narrowed by %, &, min, a comparison guard or an assert, then + - * on them, with
         inputs at the narrowing boundaries (stresses range analysis / overflow-check elimination in the optimiser)"""
         r = self.r
         t = r.choice([U256, U256, ("int", 128, False), ("int", 64, False), ("int", 256, True), ("int", 128, True), ("int", 8, False)])
+        if slot is not None and slot % 2 == 0:
+            t = r.choice([U256, ("int", 128, False), ("int", 64, False), ("int", 8, False)])
         lo, hi = int_bounds(t)
         a0 = E("var", t, name="a0", id=0)
         a1 = E("var", t, name="a1", id=1)
@@ -1604,7 +1638,7 @@ class Gen:
             return min(r.choice([2, 3, 10, 50, 100, 128, 255, 256, 1000]), hi)
 
         def narrow(x, L):
-            k = r.choice(["mod", "mod", "and", "min", "none"])
+            k = r.choice(["mod", "mod", "and", "min", "none"] if slot is None else ["mod", "mod", "and", "min"])
             if k == "mod":
                 return E("bin", t, op="Mod", a=x, b=E("const", t, v=L))
             if k == "and" and lo == 0:
@@ -1618,6 +1652,12 @@ class Gen:
         L1, L2 = lim(), lim()
         op = r.choice(["Sub", "Sub", "Sub", "Add", "Mul"])
         shape = r.choice(["expr", "expr", "assert", "if"])
+        if slot is not None:
+            # systematic part: (operator) x (which operand has the larger bound) x (how the range is established)
+            op = ["Sub", "Sub", "Add", "Mul"][slot % 4]
+            if ((slot // 4) % 2 == 0) != (L1 >= L2):
+                L1, L2 = L2, L1
+            shape = ["expr", "assert", "if"][(slot // 8) % 3]
         if shape == "expr":
             body = [S("return", e=E("bin", t, op=op, a=narrow(a0, L1), b=narrow(a1, L2)))]
         elif shape == "assert":
@@ -1884,12 +1924,16 @@ class Gen:
             if "arrays" in self.feat:
                 for _ in range(3 if po else 1):
                     p.exts.append(self.index_probe_function(len(p.exts)))
+            if "maps" in self.feat:
+                for _ in range(3 if po else 1):
+                    p.exts.append(self.map_probe_function(len(p.exts)))
             if "shifts" in self.feat:
                 ns = 8 if po else 1      # 4 probe-only programs x 8 = the whole (amount x direction x signedness) table
                 for k in range(ns):
                     p.exts.append(self.shiftconst_probe_function(len(p.exts), None if self.index is None else self.index * ns + k))
+            for k in range(6 if po else 1):      # 4 probe-only programs x 6 = the whole (op x bound order x shape) table
+                p.exts.append(self.narrow_probe_function(len(p.exts), (self.index * 6 + k) if (po and self.index is not None) else None))
             for _ in range(m):
-                p.exts.append(self.narrow_probe_function(len(p.exts)))
                 p.exts.append(self.constfold_probe_function(len(p.exts)))
             for _ in range(3 if po else 1):
                 fp = self.feature_probe_function(len(p.exts))
